@@ -494,7 +494,8 @@ bool encode_array::shift(size_t len)
 		if ((max = _d.length()) <= len) {
 			return false;
 		}
-		uint8_t *d = reinterpret_cast<uint8_t *>(_d.base());
+		// the data may be shared with other arrays: work on a private buffer
+		uint8_t *d = static_cast<uint8_t *>(mpt_array_slice(&_d, 0, max));
 		array::content *c = const_cast<array::content *>(_d.data());
 		if (!d || !c) {
 			return false;
